@@ -190,6 +190,34 @@ mut('C10', 'clear_state_keeps_status', N, """func (n *Node) clearState() {
 }""", """func (n *Node) clearState() {
 	n.data.State = NodeState{Status: n.data.State.Status}
 }""")
+# ---- C11
+P = 'internal/dag/parser.go'
+MS = 'internal/persistence/model/status.go'
+mut('C11', 'positional_index_off_by_one', P, """			if err = os.Setenv(strconv.Itoa(i+1), strParam); err != nil {""", """			if err = os.Setenv(strconv.Itoa(i), strParam); err != nil {""")
+mut('C11', 'named_param_exported_with_its_name_prefix', P, """			err = os.Setenv(p.name, p.value)""", """			err = os.Setenv(p.name, strParam)""")
+mut('C11', 'named_param_recorded_without_name', P, """	if param.name != "" {
+		return fmt.Sprintf("%s=%s", param.name, param.value)
+	}
+	return param.value""", """	return param.value""")
+mut('C11', 'last_param_dropped', P, """		strParam := stringifyParam(p)
+		ret = append(ret, strParam)""", """		strParam := stringifyParam(p)
+		if i == 0 || i+1 < len(parsedParams) {
+			ret = append(ret, strParam)
+		}""")
+mut('C11', 'recorded_params_not_quoted', MS, """		quoted = append(quoted, quoteParam(p))""", """		quoted = append(quoted, p)""")
+mut('C11', 'quotes_trimmed_greedily', P, """				value = strings.TrimSuffix(strings.TrimPrefix(value, `"`), `"`)""", """				value = strings.Trim(value, `"`)""")
+mut('C11', 'retry_loads_with_default_params', 'cmd/retry.go', """			workflow, err := dag.Load(cfg.BaseConfig, absoluteFilePath, status.Status.Params)""", """			workflow, err := dag.Load(cfg.BaseConfig, absoluteFilePath, "")""")
+mut('C11', 'restart_loads_with_default_params', 'cmd/restart.go', """			workflow, err = dag.Load(cfg.BaseConfig, specFilePath, params)""", """			workflow, err = dag.Load(cfg.BaseConfig, specFilePath, workflow.DefaultParams)""")
+mut('C11', 'start_keeps_the_quotes', 'cmd/start.go', """			workflow, err := dag.Load(cfg.BaseConfig, args[0], removeQuotes(params))""", """			workflow, err := dag.Load(cfg.BaseConfig, args[0], params)""")
+mut('C11', 'load_ignores_given_params', 'internal/dag/loader.go', """		base:         base,
+		parameters:   params,
+		metadataOnly: false,
+		noEval:       false,""", """		base:         base,
+		metadataOnly: false,
+		noEval:       false,""")
+mut('C11', 'output_not_trimmed', N, """		ret := strings.TrimSpace(buf.String())""", """		ret := buf.String()""")
+mut('C11', 'handlers_get_fresh_output_map', S, """			n.data.Step.OutputVariables = g.outputVariables""", """			n.data.Step.OutputVariables = &dag.SyncMap{}""")
+mut('C11', 'restored_output_value_keeps_name_prefix', G, """				err := os.Setenv(k, v[len(key.(string))+1:])""", """				err := os.Setenv(k, v)""")
 mut('C12', 'setup_no_longer_rearms_teardown', N, """	n.done = false
 
 	// Set the log file path""", """	// Set the log file path""")
